@@ -213,10 +213,19 @@ partial def hasNTInst (w : World) : Obj → Bool
   | .dict kvs => kvs.any (fun p => hasNTInst w p.1 || hasNTInst w p.2)
   | _ => false
 
+/-- does the PAYLOAD contain an instance of a dict subclass (`OrderedDict` / `defaultdict` / `Counter`)?  The structuring
+model reads mappings out of plain `dict` payloads only (what a `Converter` unstructures to). -/
+partial def hasMDict : Obj → Bool
+  | .mdict _ _ => true
+  | .inst _ fs => fs.any (fun p => hasMDict p.2)
+  | .coll _ xs => xs.any hasMDict
+  | .dict kvs => kvs.any (fun p => hasMDict p.1 || hasMDict p.2)
+  | _ => false
+
 /-- Is the call outside the modelled fragment?  (payload shapes the model does not cover, or a refused union
 hook that is only reachable, not reached) -/
 def unmodelledST (w : World) (cfg : Cfg) (ty : Ty) (o : Obj) : Bool :=
-  refusedReach w ty || unmodelledSTcore w cfg ty o || hasNTInst w o
+  refusedReach w ty || unmodelledSTcore w cfg ty o || hasNTInst w o || hasMDict o
 
 def hasMark (s : String) : Bool := (s.splitOn "\\uffff").length > 1
 
@@ -233,7 +242,7 @@ def convHandle (w : World) (op : String) (args : List Sexp) : Option Sexp :=
       let cfg ← cfgOfSexp cfg; let ty ← tyOfSexp ty; let o ← objOfSexp o
       if topRefused w ty then
         some (if cfg.detailed then .list [.atom "err", sexpOfErr .leaf] else .list [.atom "err"])
-      else if unmodelledSTcore w cfg ty o || hasNTInst w o then some (.atom "unmodelled")
+      else if unmodelledSTcore w cfg ty o || hasNTInst w o || hasMDict o then some (.atom "unmodelled")
       else if refusedReach w ty then
         -- a refused union nested in the type: if the payload reaches it (the model raises) the call fails whether the
         -- hook is created eagerly or lazily; if not, it depends on the factory (eager: raises; lazy: fine) -- not modelled
